@@ -63,10 +63,14 @@ def check(ctx):
     # base process_resource as used by finalizer / update_stats (and any processor not overriding it)
     dsp = repo.cls('dataflows.base.datastream_processor:DataStreamProcessor')
     base = dsp.methods['process_resource']
-    loop, var, _ = observers.single_row_loop(ctx, base)
-    sigs = rowloop_signature(base, loop, var)
-    ok = all(len(s.yields) == 1 and isinstance(s.yields[0][1].value, ast.Call) and
-             u(s.yields[0][1].value) == 'self.process_row(%s)' % var and s.term == FALL for s in sigs)
+    rls_ = row_loops(base)
+    if len(rls_) == 1:
+        loop, var, _ = rls_[0]
+        sigs = rowloop_signature(base, loop, var)
+        ok = all(len(s.yields) == 1 and isinstance(s.yields[0][1].value, ast.Call) and
+                 u(s.yields[0][1].value) == 'self.process_row(%s)' % var and s.term == FALL for s in sigs)
+    else:
+        ok = False
     run.check(ok, 'R12', base.where, base.qualname, 'yield self.process_row(row)',
               'the base row loop does not yield process_row(row) once per row')
     for cname in ('finalizer', 'update_stats'):
